@@ -48,7 +48,7 @@ Print Assumptions declare_var_through_block_rejected.
    refuted below); For loops (loop head with let / const / var declarations and arbitrary initialisers, one Scope
    with MarkForStmt) whose head mentions no name that the body declares lexically; Catch with plain parameters
    that the catch block does not redeclare by var/function; Class bodies without a class-expression name
-   (methods, field values, computed keys, static blocks without var); Decl var / function / let-const-class /
+   (methods, field values, computed keys, static blocks = function scopes without parameters); Decl var / function / let-const-class /
    parameter / catch parameter; Ref}: arbitrary nesting, shadowing at every level, use before declaration,
    hoisting of var/function through nested and sibling blocks, loops and catch clauses, closures that use names
    declared later, default values that mention earlier parameters, outer bindings or free names
